@@ -22,6 +22,6 @@ package format
 // found and nothing else failed. Closure 0 is the deferred status decision.
 //@ func run(ctx, container, flags) (retErr)
 //@   property C20
-//@   modifies heap, ghost.annotPrinted, ghost.fail, ghost.wfail, ghost.sinkPaths, ghost.sinkBuckets, ghost.lastPutOptions, ghost.buf, ghost.hdrVals
+//@   modifies heap, ghost.annotPrinted, ghost.fail, ghost.wfail, ghost.sinkPaths, ghost.sinkBuckets, ghost.lastPutOptions, ghost.buf, ghost.hdrVals, ghost.hdrKeys, ghost.j_osStat, ghost.j_osWrite, ghost.d2_follow, ghost.v_osRoots
 //@   closure 0 ensures diff-gives-100: old(retErr) == nil && flags.ExitCode && diffExists ==> retErr == bufctl.ErrFileAnnotation
 //@   closure 0 ensures no-diff-keeps: !(old(retErr) == nil && flags.ExitCode && diffExists) ==> retErr == old(retErr)
